@@ -513,6 +513,23 @@ class TermEval:
                 continue
             elif isinstance(s, (ast.Import, ast.ImportFrom)):
                 continue
+            elif isinstance(s, (ast.For, ast.While)):
+                # a loop is not unrolled: every name it stores to (or stores into) holds an unknown value afterwards
+                for n in ast.walk(s):
+                    base = None
+                    if isinstance(n, ast.Name) and isinstance(n.ctx, ast.Store):
+                        base = n.id
+                    elif isinstance(n, (ast.Subscript, ast.Attribute)) and isinstance(n.ctx, ast.Store) and isinstance(n.value, ast.Name):
+                        base = n.value.id
+                    elif isinstance(n, ast.Call) and isinstance(n.func, ast.Attribute) and isinstance(n.func.value, ast.Name) and n.func.attr.endswith("_"):
+                        base = n.func.value.id
+                    if base is not None:
+                        self.env[base] = ("op", "after-loop", base, getattr(s, "lineno", 0))
+                if any(isinstance(n, ast.Return) for n in ast.walk(s)):
+                    raise Unsupported("return inside a loop")
+            elif isinstance(s, ast.With):
+                if self.run(s.body):
+                    return True
             else:
                 raise Unsupported("statement %s" % type(s).__name__)
         return False
